@@ -77,6 +77,10 @@ var tlsGarbage = [][]byte{
 
 // setupTLSServer configures the server for a scenario (certificates as PEM bytes; the real NewTLSConfigFrom builds the config).
 func setupTLSServer(cl *cluster, config int, h redis.UserCommandHandler) {
+	setupTLSServerRule(cl, config, h, wl.GetPKI().RuleName)
+}
+
+func setupTLSServerRule(cl *cluster, config int, h redis.UserCommandHandler, rule string) {
 	p := wl.GetPKI()
 	cl.useServer(h)
 	cl.Srv.SetTLSPort(tlsPort)
@@ -84,7 +88,7 @@ func setupTLSServer(cl *cluster, config int, h redis.UserCommandHandler) {
 	cl.Srv.ServerKey = p.Server.KeyPEM
 	cl.Srv.CACerts = p.CA.CertPEM
 	if config >= 1 {
-		cl.Srv.AddAuthenticator(auth.NewCertificateAuthenticatorWith(auth.WithCommonName(p.RuleName)))
+		cl.Srv.AddAuthenticator(auth.NewCertificateAuthenticatorWith(auth.WithCommonName(rule)))
 	}
 	if config == 2 {
 		cl.Srv.SetRequirePass(tlsPassword)
@@ -129,7 +133,16 @@ func runC09(t *testing.T, tape *sim.Tape, tier string) *Outcome {
 	sc := scens[si]
 	cl := newCluster(tape, o)
 	d := &wl.Double{}
-	setupTLSServer(cl, sc.Config, d)
+	// a quarter of the runs with a rule: the rule's name contains separator characters ("Doe, John; ops|verif"), the
+	// admitted identity carries exactly that name and the wrong-name client carries a piece of it
+	pk0 := wl.GetPKI()
+	rightID, rule := pk0.Right, pk0.RuleName
+	altRule := sc.Config >= 1 && tape.Draw(4, "rulename") == 3
+	if altRule {
+		rightID, rule = pk0.Right2, pk0.RuleName2
+		o.stat("runs_with_a_rule_name_containing_separators", 1)
+	}
+	setupTLSServerRule(cl, sc.Config, d, rule)
 	calls := map[string]int{} // by key tag
 	d.OnCall = func(call *wl.Call) {
 		for _, tag := range []string{"faulty", "goodA", "goodB", "probe", "plainlate"} {
@@ -205,7 +218,7 @@ func runC09(t *testing.T, tape *sim.Tape, tier string) *Outcome {
 		return tls.VersionTLS13
 	}
 	goodCfg := func() *tls.Config {
-		c := p.ClientConfig(p.Right)
+		c := p.ClientConfig(rightID)
 		c.MaxVersion = maxVer()
 		return c
 	}
@@ -239,10 +252,17 @@ func runC09(t *testing.T, tape *sim.Tape, tier string) *Outcome {
 			faultyPlains = append(faultyPlains, fp)
 		default:
 			ident := identFor(sc.Cred)
+			if sc.Cred == "right" {
+				ident = rightID
+			}
+			if altRule && sc.Cred == "wrongname" {
+				ident = p.Pieces2[tape.Draw(len(p.Pieces2), "piece")]
+				o.stat("common_names_that_are_a_piece_of_the_rule", 1)
+			}
 			if chained && sc.Cred == "foreign" {
 				ident = p.ViaServerCA
 			}
-			if sc.Cred == "wrongname" {
+			if sc.Cred == "wrongname" && !altRule {
 				// half of the wrong-name clients carry a near miss of the rule's name (case, trailing dot, space, NUL, +-1 character, case-folding look-alike)
 				if v := tape.Draw(2*len(p.NearNames), "nearname"); v < len(p.NearNames) {
 					ident = p.NearNames[v]
@@ -425,6 +445,10 @@ func runC09(t *testing.T, tape *sim.Tape, tier string) *Outcome {
 				}
 			}
 			if len(acts) == 0 {
+				if t := cl.runnableServerTask(); t != nil {
+					cl.S.Release(t)
+					continue
+				}
 				break
 			}
 			acts[0].Do()
@@ -466,7 +490,7 @@ func init() {
 	register(&Check{
 		ID: "C09", Bubble: true, Run: runC09,
 		Runs:   map[string]int{"quick": 20 * n, "thorough": 1500 * n},
-		Rule:   fmt.Sprintf("the scenario space {no rule, common-name rule, rule+password} x {no certificate, self-signed, foreign CA, expired, right CA wrong name (half of them a near miss of the rule's name), right CA wrong common name with the rule's name among the DNS alternative names, right name only on an intermediate, right CA right name, plain-text bytes, garbage; abort after ClientHello; stalled handshake with and without a valid certificate} x {before, between, after well-behaved clients} = %d scenarios is enumerated completely (run index mod %d); per scenario the schedule (accept loop vs. handshake records vs. other clients), record chunking and TLS 1.2/1.3 are sampled; one run in sixteen adds a crowd of 130..250 connections that stay silent on the TLS port; a third of the runs repeat the scenario client 2..12 times, half of those one after the other with a shared TLS session cache (resumed sessions); with rule+password every TLS client first sends a command before AUTH, which must not reach the handler; one run in six starts from a configuration history (files; former CA; CA file replaced in place and set again; Restart); a quarter of the other runs give the server a certificate chain (leaf + issuer) of an authority of its own, whose client certificate is the foreign one of that run; distinct = distinct (scenario, event-log hash) pairs", n, n),
+		Rule:   fmt.Sprintf("the scenario space {no rule, common-name rule, rule+password} x {no certificate, self-signed, foreign CA, expired, right CA wrong name (half of them a near miss of the rule's name), right CA wrong common name with the rule's name among the DNS alternative names, right name only on an intermediate, right CA right name, plain-text bytes, garbage; abort after ClientHello; stalled handshake with and without a valid certificate} x {before, between, after well-behaved clients} = %d scenarios is enumerated completely (run index mod %d); per scenario the schedule (accept loop vs. handshake records vs. other clients), record chunking and TLS 1.2/1.3 are sampled; one run in sixteen adds a crowd of 130..250 connections that stay silent on the TLS port; a quarter of the runs with a rule use a rule name with separator characters, carried exactly by the admitted identity and in pieces by the wrong-name client; a third of the runs repeat the scenario client 2..12 times, half of those one after the other with a shared TLS session cache (resumed sessions); with rule+password every TLS client first sends a command before AUTH, which must not reach the handler; one run in six starts from a configuration history (files; former CA; CA file replaced in place and set again; Restart); a quarter of the other runs give the server a certificate chain (leaf + issuer) of an authority of its own, whose client certificate is the foreign one of that run; distinct = distinct (scenario, event-log hash) pairs", n, n),
 		Real:   []string{"redis.Server TLS accept loop and handshake, NewTLSConfigFrom, auth.CertificateAuthenticator, auth.AuthManager, crypto/tls (server and clients), crypto/x509 verification against the simulated clock"},
 		Stub:   []string{"network: simulated", "certificates: deterministic Ed25519 PKI valid relative to the bubble epoch", "handler: recording double"},
 		Assume: []string{"a plain client counts as served when it gets any reply to PING (with rule+password it cannot authenticate on the plain port)"},
